@@ -61,6 +61,7 @@ def interruption {Îµ} (hasTimeout : Bool) : Nat â†’ List Event â†’ Option (Err Î
   | left + 1, .timeout :: rest =>
     if hasTimeout then some .timeout else interruption hasTimeout (left + 1) rest
   | _ + 1, .died _ :: _ => some .workerDied
+  | left + 1, .bystander _ :: rest => interruption hasTimeout (left + 1) rest
 
 /-- the property's reading of an outcome of the parallel helper on a pool of `cpus â‰¥ 2`
     workers, for a valid schedule: what the caller may observe -/
